@@ -195,6 +195,9 @@ def body():
                         Mo = T[other].T.dot(m.block_diag(other, kind)).dot(T[kind])
                         if Mo.size and r2.rel(f.projections(sp[other]), Mo.dot(c)) > TOL:
                             fail("gridfunction:projections_dual:%s" % kind, "projections(dual=%s) of a %s function (%s) deviate by %.3g" % (other, kind, vname, r2.rel(f.projections(sp[other]), Mo.dot(c))))
+                        # asking again for the own projections after a foreign dual space was used must give the same answer
+                        if not (r2.rel(f.projections(), M.dot(c)) <= TOL):   # NaN counts as a deviation
+                            fail("gridfunction:projections_again:%s" % kind, "projections() of a %s function (%s) after projections(dual=%s) deviate by %.3g" % (kind, vname, other, r2.rel(f.projections(), M.dot(c))))
                         # integral
                         nsh = r2.KINDS[kind][2]
                         if kind in r2.SCALAR:
